@@ -1519,12 +1519,35 @@ class LuaMinifyTokenWriter(BaseLuaWriter):
         )
         self._last_was_name_keyword_number = False
         self._last_was_newline = True
+        self._last_code = b''
+
+    def _would_fuse(self, code):
+        """Tells whether code written directly after the previous token would
+        read back as something else: "-" "-" as a comment, "[" "[[s]]" as a
+        different long string, ".." "..." or "1" ".." as other tokens.
+
+        Args:
+          code: The code of the token about to be written.
+        """
+        last = self._last_code
+        if self._last_was_newline or not last:
+            return False
+        last_was_number = (last[:1].isdigit() or
+                           (last[:1] == b'.' and last[1:2].isdigit()))
+        return (last[-1:] + code[:1] in (b'--', b'[[', b'..') or
+                (last_was_number and code[:1] == b'.'))
 
     def to_lines(self):
         """
         Yields:
           Chunks of Lua code.
         """
+        for chunk in self._to_chunks():
+            if chunk.strip():
+                self._last_code = chunk
+            yield chunk
+
+    def _to_chunks(self):
         seen_header_comments = 0
         seen_non_comment_token = False
 
@@ -1576,12 +1599,15 @@ class LuaMinifyTokenWriter(BaseLuaWriter):
                 self._last_was_newline = False
                 yield token.code
             elif token.matches(lexer.TokNumber):
-                if self._last_was_name_keyword_number:
+                if (self._last_was_name_keyword_number or
+                        self._would_fuse(token.code)):
                     yield b' '
                 self._last_was_name_keyword_number = True
                 self._last_was_newline = False
                 yield token.code
             else:
+                if self._would_fuse(token.code):
+                    yield b' '
                 self._last_was_name_keyword_number = token.code in b'])}'
                 self._last_was_newline = False
                 yield token.code
